@@ -115,7 +115,7 @@ def load(repo=None, fresh=False):
     pkg = importlib.import_module(SHADOW_NAME)
     for sub in ('core', 'solver', 'fields', 'maps', 'models', 'meshes',
                 'electrodes', 'surveys', 'simulations', 'io', 'time',
-                'utils', '_multiprocessing'):
+                'utils', '_multiprocessing', 'cli', 'cli.parser', 'cli.run'):
         importlib.import_module(f'{SHADOW_NAME}.{sub}')
     _state.update(pkg=pkg, dir=tmp, hashes=hashes)
     return pkg
